@@ -284,6 +284,36 @@ pub fn run(tier: &str) -> i32 {
         }
     }
     let u: Vec<Ty> = universe::u2(thorough).into_iter().chain(universe::spines()).filter(interesting).collect();
+    // unions of three function types whose parameter types overlap without being comparable, with
+    // a third inside their intersection (and tuple / struct / cell / iterator analogues): every query
+    // that folds over the members (params, return_type, index_result, tuple_element_at, field_type,
+    // iter_element ...) must be the same fold whatever order the members come in
+    let mut u = u;
+    {
+        let ps = [
+            Ty::Int,
+            Ty::Float,
+            Ty::Str,
+            Ty::union([Ty::Int, Ty::Float]),
+            Ty::union([Ty::Float, Ty::Str]),
+            Ty::union([Ty::Int, Ty::Str]),
+            Ty::union([Ty::Int, Ty::Float, Ty::Str]),
+            Ty::Any,
+        ];
+        for a in 0..ps.len() {
+            for b in a + 1..ps.len() {
+                for c in b + 1..ps.len() {
+                    let (x, y, z) = (ps[a].clone(), ps[b].clone(), ps[c].clone());
+                    u.push(Ty::union([Ty::func(vec![x.clone()], Ty::Int), Ty::func(vec![y.clone()], Ty::Int), Ty::func(vec![z.clone()], Ty::Int)]));
+                    u.push(Ty::union([Ty::func(vec![], x.clone()), Ty::func(vec![], y.clone()), Ty::func(vec![], z.clone())]));
+                    u.push(Ty::union([Ty::Tup(vec![x.clone(), Ty::Int]), Ty::Tup(vec![y.clone(), Ty::Int]), Ty::Tup(vec![z.clone(), Ty::Int, Ty::Int])]));
+                    u.push(Ty::union([Ty::arr(x.clone()), Ty::arr(y.clone()), Ty::arr(z.clone())]));
+                    u.push(Ty::union([Ty::strukt(&[("a", x.clone())]), Ty::strukt(&[("a", y.clone()), ("b", Ty::Int)]), Ty::strukt(&[("a", z.clone())])]));
+                    u.push(Ty::union([Ty::func(vec![], Ty::Tup(vec![Ty::Bool, x])), Ty::func(vec![], Ty::Tup(vec![Ty::Bool, y])), Ty::func(vec![], Ty::Tup(vec![Ty::Bool, z]))]));
+                }
+            }
+        }
+    }
     let set: BTreeSet<Ty> = u.into_iter().collect();
     let u: Vec<Ty> = set.into_iter().collect();
     let accs = par_fold(u.len(), Acc::default, |acc, i| {
